@@ -9,7 +9,8 @@ rc=0
 for s in $seeds; do for p in $props; do
   r=$(VERIF_SEED=$s VERIF_EVIDENCE_DIR=$out VERIF_REPLAY_DIR=$out /venv/bin/python "$(dirname "$0")/../run_check.py" $p --tier quick 2>&1); e=$?
   echo "seed=$s $p exit=$e $(echo "$r" | grep -v '^KNOWN' | tail -1 | cut -c1-150)"
-  if [ $e -ne 0 ]; then rc=1; echo "$r" | grep -v '^KNOWN' | head -12 | cut -c1-600; fi
+  if [ $e -ne 0 ]; then rc=1; echo "$r" | grep -v '^KNOWN' | head -12 | cut -c1-600
+    mkdir -p /tmp/scratch/ms_fail; cp "$out"/$p/${s}-*.json /tmp/scratch/ms_fail/ 2>/dev/null; fi
 done; done
 rm -rf "$out"
 exit $rc
